@@ -577,6 +577,7 @@ struct InvokeWorld : World
     std::unique_ptr<CbC> cbc;
     using CbS = rlbox::sandbox_callback<long (*)(SimPair), Sbx>;
     std::unique_ptr<CbS> cbs;
+    uint64_t fn_translations_at_create = 0;
     using CbE = rlbox::sandbox_callback<Wide64 (*)(Wide64), Sbx>;
     std::unique_ptr<CbE> cbe;
     TT<char*> buf = nullptr;
@@ -915,6 +916,8 @@ struct InvokeWorld : World
     g_result_bits = (uint64_t)op.a[3];
     size_t before = g_glog.size();
     int got = 0;
+    uint64_t tr_before = 0;
+    bool fn_given = false;
     Outcome o = attempt([&] {
       TT<void (*)(void)> gf = nullptr;
       if (form == 2) {
@@ -928,10 +931,20 @@ struct InvokeWorld : World
           C->probe("function_address_obtained_earlier");
         }
         e.args = { cbidx, want_gf };
+        tr_before = sim::g_fn_translations;
+        fn_given = true;
         got = m.sb->invoke_sandbox_function(f_fn, *m.cb, gf).UNSAFE_unverified();
       }
     });
     C->ev("fn form %d -> %s", form, oname(o));
+    if (fn_given && o == OK) {
+      // what the guest is given for a function is the backend's representation of it: the first time a function's
+      // address crosses in an incarnation the backend has to be asked - an answer that was not obtained in this
+      // incarnation can only stem from an earlier one
+      (void)tr_before;
+      if (sim::g_fn_translations == m.fn_translations_at_create)
+        C->violate("C11", "function_representation_not_obtained_from_this_incarnation@fn", "a function address was handed to the guest although the backend has not been asked to translate any since this incarnation was created");
+    }
     if (judge(m, FN_FN, o, before, e, "fn") && got != (int)(int32_t)g_result_bits)
       C->violate("C11", "wrong_result@fn", "result");
   }
@@ -1477,6 +1490,7 @@ struct InvokeWorld : World
       return;
     m.created = true;
     m.lib = lib;
+    m.fn_translations_at_create = sim::g_fn_translations;
     for (auto& h : m.have_addr)
       h = false;
     for (auto& l : m.looked)
